@@ -394,6 +394,23 @@ func (c *zzC13Chain) sweepTx(req *zzSweepReq) *wire.MsgTx {
 		o := *sl.RequiredTxOut()
 		tx.AddTxOut(&o)
 		tx.LockTime = sl.SignedTx.LockTime
+		// The pre-signed transaction carries no fee; the sweeper attaches a
+		// wallet input and a change output (SIGHASH_SINGLE|ANYONECANPAY), so
+		// the transaction that confirms is usually NOT the pre-signed one and
+		// the second-level output sits in a transaction whose id nobody knew
+		// in advance. Decided per output by the chain script's salt.
+		var sb [8]byte
+		binary.BigEndian.PutUint64(sb[:], uint64(c.salt))
+		fh := sha256.Sum256(append(append(sb[:], []byte("fee-input ")...), []byte(op.String())...))
+		if fh[0]%3 != 0 {
+			var wh chainhash.Hash
+			copy(wh[:], fh[:])
+			wh[31] = 0xfe
+			c.confirmed[wh] = 0 // a confirmed wallet coin
+			tx.AddTxIn(&wire.TxIn{PreviousOutPoint: wire.OutPoint{Hash: wh, Index: 0}, Witness: wire.TxWitness{zzC13Sig, {0x02}}})
+			tx.AddTxOut(&wire.TxOut{Value: 5000, PkScript: zzP2WSH([]byte("sweeper change " + op.String()))})
+			c.ex.r.Count("probe_second_level_tx_with_fee_input")
+		}
 		return tx
 	}
 	ws := inp.SignDesc().WitnessScript
